@@ -32,10 +32,14 @@ const (
 	vNumKinds
 )
 
-// vRec is the record type of the vRecord kind: its binary form is its content.
+// vRec is the record type of the vRecord kind: its binary form is its content. MarshalBinary
+// returns a fresh slice, as the standard library's marshalers do: ForRecord's merge hands the
+// decoded record back to its pool while the encoded result is still being written to the commit
+// buffer, so a marshaler that returned its internal buffer (and an UnmarshalBinary that reuses
+// it) would be overwritten by a merge running in another block. Such record types are outside the claim.
 type vRec struct{ b []byte }
 
-func (r *vRec) MarshalBinary() ([]byte, error) { return r.b, nil }
+func (r *vRec) MarshalBinary() ([]byte, error) { return append([]byte(nil), r.b...), nil }
 func (r *vRec) UnmarshalBinary(b []byte) error {
 	r.b = append(r.b[:0], b...)
 	return nil
